@@ -51,6 +51,10 @@ LEVEL_TEXT += (
     "pairs consecutive rows; padded facets are one facet whichever "
     "vertex is repeated (exact interpretation of build_entities); p2f "
     "holds 0 and 1.")
+LEVEL_TEXT += (
+    " Added in the second hunting round (DESIGN.md 9.6): "
+    "complements within the stored points are taken against the full "
+    "node table (points versus vertices).")
 LEVEL_NOTE = ("Trusted: numpy unique/hstack/reshape/tile/flatten/sort "
               "semantics; scipy coo_matrix((data, (row, col))).")
 EXPLANATION = "Layout-typed symbolic runs + exact polytope audit."
